@@ -242,6 +242,7 @@ func NewNNSDriver(mode string) *NNSDriver {
 			nnsOp{kind: "add", name: "x.aa.com", typ: rtTXT, data: "tx", signer: u},
 			nnsOp{kind: "del", name: "x.aa.com", typ: rtTXT, signer: u},
 			nnsOp{kind: "add", name: "y.x.aa.com", typ: rtTXT, data: "ty", signer: u},
+			nnsOp{kind: "add", name: "yx.aa.com", typ: rtTXT, data: "t", signer: u}, // shares a textual suffix with x.aa.com without a label boundary
 			nnsOp{kind: "add", name: "x.aa.com", typ: rtCNAME, data: "bb.com", signer: u}, // the one-CNAME rule is per name, also for a sub-name kept under aa.com
 			nnsOp{kind: "add", name: "x.aa.com", typ: rtCNAME, data: "cc.com", signer: u},
 			nnsOp{kind: "register", name: "x.aa.com", who: "U1", signer: u},
